@@ -91,11 +91,62 @@ def merge(cx, shape, skip_checks=False, via_file=False):
                  for (tr, _), sn in zip(tracks, snap)), 'inputs-untouched')
 
 
+SHARED_LAYOUTS = {
+    'twice-in-track': ['AA'], 'track-times-two': ['ABAB'], 'same-track-listed-twice': ['AB', '=0'],
+    'message-in-two-tracks': ['AB', 'B'], 'shared-meta': ['TA', 'TB'], 'three-times': ['A', 'BA', 'A'],
+    'eot-shared': ['AE', 'BE'],
+}
+
+
+@harness(labels=['shared:every-occurrence-at-its-own-time', 'shared:single-trailing-eot', 'shared:total-duration',
+                 'shared:inputs-untouched'])
+def shared(cx, layout, skip_checks=False):
+    """The same message OBJECT occurs more than once (track * 2, one meta message shared by two tracks, the same
+    track listed twice): every occurrence is an event of its own, at its own absolute tick."""
+    import mido
+    objs = {'A': mido.Message('note_on', note=1, time=cx.int('a', 0, D30)),
+            'B': mido.Message('note_on', note=2, time=cx.int('b', 0, D30)),
+            'T': mido.MetaMessage('set_tempo', tempo=7, time=cx.int('c', 0, D30)),
+            'E': mido.MetaMessage('end_of_track', time=cx.int('e', 0, D30))}
+    before = {k: dict(vars(m)) for k, m in objs.items()}
+    tlist = []
+    for spec in SHARED_LAYOUTS[layout]:
+        tlist.append(tlist[int(spec[1:])] if spec[0] == '=' else mido.MidiTrack(objs[c] for c in spec))
+    occ, ends = [], []
+    for ti, tr in enumerate(tlist):
+        now = 0
+        for i, m in enumerate(tr):
+            now = now + m.time
+            if m.type != 'end_of_track':
+                occ.append(((now, ti, i), m))
+        ends.append(now)
+    occ.sort(key=lambda o: o[0])
+    out = mido.merge_tracks(tlist, skip_checks=skip_checks)
+    cx.observe('merged', [vars(m) for m in out])
+    body, last = list(out[:-1]), (out[-1] if len(out) else None)
+    ok = len(body) == len(occ)
+    cx.check(ok, 'shared:every-occurrence-at-its-own-time')
+    now = 0
+    for m, (key, orig) in zip(body, occ):
+        now = now + m.time
+        va, vb = dict(vars(m)), dict(before[[k for k, o in objs.items() if o is orig][0]])
+        va.pop('time'), vb.pop('time')
+        cx.check(type(m) is type(orig) and va == vb and cx.eq(now, key[0]), 'shared:every-occurrence-at-its-own-time')
+    cx.check(last is not None and last.type == 'end_of_track' and all(m.type != 'end_of_track' for m in body),
+             'shared:single-trailing-eot')
+    if last is not None and ok:
+        total = now + last.time
+        cx.check(cx.And(cx.Or(*[cx.eq(total, e) for e in ends]), *[total >= e for e in ends]), 'shared:total-duration')
+    cx.check(all(vars(m) == before[k] and all(vars(m)[a] is before[k][a] for a in before[k]) for k, m in objs.items()),
+             'shared:inputs-untouched')
+
+
 BOUNDS = {
     'quick': 'every list of 0..3 tracks over the alphabet {note_on, text meta, set_tempo, end_of_track} with at most 3 messages per track '
              'and at most 5 in total (end_of_track missing, last, repeated, in the middle), every delta symbolic in [0, 2^30] so '
              'that all orderings and all tie patterns between tracks are chosen by the solver; skip_checks on and off; through '
-             'MidiFile.merged_track for 2-track shapes',
+             'MidiFile.merged_track for 2-track shapes; 7 layouts in which one message OBJECT occurs several times (track*2, '
+             'shared meta message, the same track listed twice), deltas symbolic',
     'thorough': 'up to 6 messages in total, 3 per track',
 }
 OUTSIDE = 'more than 6 messages; negative or non-integer deltas; message kinds other than the three (merge does not look at them)'
@@ -145,4 +196,7 @@ def JOBS(tier):
     for sh in (['n', 'n'], ['ne', 'tn'], ['nn', 'e'], ['nen', 'ne'], [], ['', ''], ['n', 'T'], ['nT', 'tn']):
         jobs.append((merge, {'shape': sh, 'skip_checks': True}, {'width': 0}))
         jobs.append((merge, {'shape': sh, 'via_file': True}, {'width': 0}))
+    for layout in SHARED_LAYOUTS:
+        for sk in (False, True):
+            jobs.append((shared, {'layout': layout, 'skip_checks': sk}, {'width': 0}))
     return jobs
